@@ -473,7 +473,8 @@ def replay_file(check: Check, path: str, stats: Stats):
 # --------------------------------------------------------------------------------------
 def write_evidence(check: Check, tier: str, seed: int, stats: Stats, n_viol: int, wall: float,
                    extra: Optional[Dict[str, Any]] = None):
-    os.makedirs(os.path.join(ROOT, 'evidence'), exist_ok=True)
+    evdir = os.environ.get('VERIF_EVIDENCE_DIR') or os.path.join(ROOT, 'evidence')
+    os.makedirs(evdir, exist_ok=True)
     samples = []
     have = set()
     for h, s in stats.samples_first + stats.samples_low:
@@ -501,9 +502,28 @@ def write_evidence(check: Check, tier: str, seed: int, stats: Stats, n_viol: int
     ev = {'property_id': check.prop, 'tier': tier, 'seed': seed, 'level': check.level,
           'coverage': cov, 'assumptions': check.assumptions, 'wall_s': round(wall, 2),
           'violations': n_viol}
-    path = os.path.join(ROOT, 'evidence', f"{check.prop}.json")
+    path = os.path.join(evdir, f"{check.prop}.json")
     tmp = path + '.tmp'
     with open(tmp, 'w') as f:
         json.dump(ev, f, indent=1, default=repr)
     os.replace(tmp, path)
     return path
+
+
+def safe_deepcopy(model):
+    """copy.deepcopy for models that hold non-leaf tensors (sampled coefficients with a grad_fn) as
+    attributes or buffers: those are swapped for detached clones during the copy and restored."""
+    import copy
+    import torch
+    saved = []
+    for mod in model.modules():
+        for store in (mod.__dict__, mod._buffers):
+            for k, v in list(store.items()):
+                if isinstance(v, torch.Tensor) and v.grad_fn is not None:
+                    saved.append((store, k, v))
+                    store[k] = v.detach().clone()
+    try:
+        return copy.deepcopy(model)
+    finally:
+        for store, k, v in saved:
+            store[k] = v
